@@ -172,11 +172,11 @@ SPECS['C06'] = {
     'rule': 'c06a: per seed (certificate, chain, CRL, CSR, 5 CMS types, PKCS#8 plain/encrypted, SPKI, ECPrivateKey, SM2/SM9 signatures, ciphertexts and keys, PEM, hex/base64/URI/HTTP text, handshake records of honest TLCP/TLS1.2 runs): 9 substitutions x every offset + every truncation + per TLV header 11 length encodings + 14 tags + 9 boundary values + tree operator (every element of every constructed value, also inside OCTET/BIT STRING wrappers, emitted r times, r in {0,2,3,7,8,9,16,17,32,33,64,65,128,129}, lengths re-encoded); password-protected SM2 / SM9 key files (PBKDF2 cut to 64 iterations for writer and reader); cross-type block (every seed to every other consumer); capacity block (OID arcs, SEQUENCE OF INTEGER, tag names, certificate lists around 2048 bytes, cipher-suite / session-id sizes). ASan+UBSan and MSan builds. c06b: per configuration and handshake record: substitutions at every payload offset (quick: thinned), every consistent truncation of plaintext handshake messages, oversize certificate lists, hello-extension rewriting (delete / repeat 2..200 times / cut every extension, shrink every inner vector, lengths re-encoded), the same substitutions and truncations inside ENCRYPTED TLS 1.3 handshake messages (malicious peer through a wrap of sm4_gcm_encrypt), crafted records after the handshake, with state guard; fast, ASan and MSan builds. c06c: every exported *_print and *_from_der[_ex] entry point of the tree under test (wrappers generated from include/gmssl/*.h by bin/vgen_c06c: 116 printers in 5 byte-string signature classes + 144 readers (*_from_der[_ex], *_from_bytes, tls*_process_* extension processors) whose outputs are provided at their contractual capacity in exact-size heap blocks, tag / index selectors enumerated; after a successful return every (pointer,length) output is read through and list counts are compared with the capacity given; what is not generated is listed in the table with the reason); likewise every *_from_pem reader (16) x 440 PEM texts (every DER seed under each of the 14 labels the library reads, files with 2..12 certificates) x text-level deviations (header / footer dropped or altered, one 10000-character line, CRLF, blank lines, foreign characters, padding removed / doubled, empty body, garbage around, truncations) with caller buffers of 0 / 1 / 100 / 512 / 4096 octets x every node (TLV and bare content) of the DER tree of every seed incl. a certificate with every extension the library can write, a CRL with every CRL/entry extension, a request with attributes, all GeneralName choices, and every record / handshake message / length-prefixed vector of honest TLCP, TLS 1.2 and TLS 1.3 runs (TLS 1.3 plaintext taken at the AEAD boundary) x {unchanged, 6 substitutions at each of the first HEAD bytes and the last byte, every truncation below HEAD, n-1, n-2} x every selector value for the printers that take one; ASan+UBSan and MSan builds.',
     'bound': {'quick': '1 mutation, offsets thinned (step 3) for seeds > 2500 bytes', 'thorough': '1 mutation at every offset'},
     'assumptions': ['two simultaneous mutations out of scope', 'file / socket plumbing of the command-line tools not covered'],
-    'quick': [J('c06a', 'asan', srcs=TLSSRC, libs=PBWRAP, deadline=150), J('c06a', 'msan', srcs=TLSSRC, libs=PBWRAP, deadline=150),
-              J('c06c', 'asan', srcs=TLSSRC, libs=PGWRAP, gen='vgen_c06c', deadline=150), J('c06c', 'msan', srcs=TLSSRC, libs=PGWRAP, gen='vgen_c06c', deadline=150, env={'C06C_HEAD': '4'}),
-              J('c06b', 'fast', srcs=TLSSRC, libs=GCMWRAP, deadline=150, env={'C06B_STEP': '3', 'C06B_DENSE': '160', 'C06B_SUBS': '0x1ff'}),
-              J('c06b', 'asan', srcs=TLSSRC, libs=GCMWRAP, deadline=150, env={'C06B_STEP': '32', 'C06B_DENSE': '96', 'C06B_SUBS': '0xc9'}),
-              J('c06b', 'msan', srcs=TLSSRC, libs=GCMWRAP2, deadline=150, env={'C06B_STEP': '64', 'C06B_DENSE': '160', 'C06B_SUBS': '0x81'})],
+    'quick': [J('c06a', 'asan', srcs=TLSSRC, libs=PBWRAP, deadline=400), J('c06a', 'msan', srcs=TLSSRC, libs=PBWRAP, deadline=400),
+              J('c06c', 'asan', srcs=TLSSRC, libs=PGWRAP, gen='vgen_c06c', deadline=400), J('c06c', 'msan', srcs=TLSSRC, libs=PGWRAP, gen='vgen_c06c', deadline=400, env={'C06C_HEAD': '4'}),
+              J('c06b', 'fast', srcs=TLSSRC, libs=GCMWRAP, deadline=400, env={'C06B_STEP': '3', 'C06B_DENSE': '160', 'C06B_SUBS': '0x1ff'}),
+              J('c06b', 'asan', srcs=TLSSRC, libs=GCMWRAP, deadline=400, env={'C06B_STEP': '32', 'C06B_DENSE': '96', 'C06B_SUBS': '0xc9'}),
+              J('c06b', 'msan', srcs=TLSSRC, libs=GCMWRAP2, deadline=400, env={'C06B_STEP': '64', 'C06B_DENSE': '160', 'C06B_SUBS': '0x81'})],
     'thorough': [J('c06a', 'asan', srcs=TLSSRC, libs=PBWRAP, deadline=1500), J('c06a', 'msan', srcs=TLSSRC, libs=PBWRAP, deadline=1500),
               J('c06c', 'asan', srcs=TLSSRC, libs=PGWRAP, gen='vgen_c06c', deadline=1500, env={'C06C_HEAD': '24'}), J('c06c', 'msan', srcs=TLSSRC, libs=PGWRAP, gen='vgen_c06c', deadline=1500, env={'C06C_HEAD': '12'}),
               J('c06b', 'fast', srcs=TLSSRC, libs=GCMWRAP, deadline=1500, env={'C06B_STEP': '1', 'C06B_DENSE': '160', 'C06B_SUBS': '0x1ff'}),
